@@ -133,6 +133,8 @@ func init() {
 		// the general stream too: programs with amount clauses, model vs implementation
 		scfg := GenCfg{MaxDepth: 2, Captures: true, Anchors: true, Amounts: true, Replace: true}
 		cases = append(cases, searchCases(r, st, sizes(tier, 600, 10000), scfg, 3, 16, "g")...)
+		// the containers behind the window and the VM stacks, as written (libvore/ds) against Model/Ds.lean
+		cases = append(cases, dsHistCases(r, st, sizes(tier, 600, 20000))...)
 		return cases
 	}
 }
